@@ -14,12 +14,12 @@
 (* disagreement with the results TLC predicted for a replayed behaviour is  *)
 (* only counted (stat_drift).                                               *)
 (***************************************************************************)
-EXTENDS LifecycleMon, TraceKit
+EXTENDS LifecycleMon, TraceKit, Integers
 
 CONSTANT Want
 
-VARIABLES l, fails, m, pred, drift, ncase, cnt, prevS, seen, done
-tvars == <<l, fails, m, pred, drift, ncase, cnt, prevS, seen, done>>
+VARIABLES l, fails, m, pred, drift, ncase, cnt, prevS, seen, rs, done
+tvars == <<l, fails, m, pred, drift, ncase, cnt, prevS, seen, rs, done>>
 
 OpOf(r) == [side |-> r.side, op |-> r.op, phase |-> r.phase, res |-> r.res, anc |-> r.anc, tree |-> r.tree]
 KnownEv == {"Begin", "Cmd", "EndpointOp", "Edit", "Roots", "Disk", "State", "Stream", "End", "CaseAborted", "Infra"}
@@ -64,13 +64,26 @@ Drift(r, p) == IF r.ev = "Cmd" /\ r.phase = "return" /\ r.id \in DOMAIN p /\ p[r
 
 \* how often the antecedents of the properties were established by real observations (vacuity control)
 Cnt0 == [halts |-> 0, quiets |-> 0, flushok |-> 0, terms |-> 0, resets |-> 0, pausedobs |-> 0, cycles |-> 0,
-         stchk |-> 0, stdrift |-> 0, stream |-> 0, strdrift |-> 0, strdirect |-> 0]
+         stchk |-> 0, stdrift |-> 0, stream |-> 0, strdrift |-> 0, strdirect |-> 0,
+         recyc |-> 0, recdrift |-> 0, rwaits |-> 0, rwdrift |-> 0]
+\* scan retry timing (the trace has clocks, the monitor has none): rs = [n: try-again scans in a row, t: when the last
+\* one returned]; the scan that follows two or more in a row must start at least rescanWaitDuration later
+RescanWaitMs == 4900
+Rs0 == [n |-> 0, t |-> 0]
+NextRs(r, x) ==
+  IF r.ev = "Begin" THEN Rs0
+  ELSE IF r.ev # "EndpointOp" THEN x
+  ELSE IF r.op \in {"Connect", "Shutdown"} THEN Rs0
+  ELSE IF r.op = "Scan" /\ r.phase = "return" /\ r.res = "again" THEN [n |-> x.n + 1, t |-> r.t]
+  ELSE IF r.op = "Scan" /\ r.phase = "return" /\ r.res = "ok" /\ r.side = "alpha" THEN Rs0
+  ELSE x
+WaitedScan(r, x) == r.ev = "EndpointOp" /\ r.op = "Scan" /\ r.phase = "call" /\ r.side = "alpha" /\ x.n >= 2
 \* conformance with the status machine (growth beyond C29/C11: counted, never a verdict)
 NoSample == [set |-> FALSE, st |-> "none", err |-> FALSE, cyc |-> 0]
 SampleOf(r) == [set |-> TRUE, st |-> r.status, err |-> r.err, cyc |-> r.cycles]
 PinnedState(r, m0) == r.ev = "State" /\ r.stable /\ r.listErr = "" /\ r.listed /\ Pinned(m0)
 StreamPair(r, p) == r.ev = "Stream" /\ r.listed /\ p.set
-Bump(c, r, m0, m1, p) ==
+Bump(c, r, m0, m1, p, x) ==
   [halts |-> c.halts + (IF m1.halted /\ ~m0.halted THEN 1 ELSE 0),
    quiets |-> c.quiets + (IF m1.quiet /\ ~m0.quiet THEN 1 ELSE 0),
    flushok |-> c.flushok + (IF r.ev = "Cmd" /\ r.phase = "return" /\ r.kind = "flushw" /\ r.result = "ok" THEN 1 ELSE 0),
@@ -82,7 +95,11 @@ Bump(c, r, m0, m1, p) ==
    stdrift |-> c.stdrift + (IF PinnedState(r, m0) /\ ~StatusAgrees(m0, r) THEN 1 ELSE 0),
    stream |-> c.stream + (IF r.ev = "Stream" THEN 1 ELSE 0),
    strdrift |-> c.strdrift + (IF StreamPair(r, p) /\ ~StreamOK(p, SampleOf(r)) THEN 1 ELSE 0),
-   strdirect |-> c.strdirect + (IF StreamPair(r, p) /\ StepOK(p, SampleOf(r)) THEN 1 ELSE 0)]
+   strdirect |-> c.strdirect + (IF StreamPair(r, p) /\ StepOK(p, SampleOf(r)) THEN 1 ELSE 0),
+   recyc |-> c.recyc + (IF r.ev = "EndpointOp" THEN m1.rcok - m0.rcok ELSE 0),
+   recdrift |-> c.recdrift + (IF r.ev = "EndpointOp" THEN m1.rcdrift - m0.rcdrift ELSE 0),
+   rwaits |-> c.rwaits + (IF WaitedScan(r, x) THEN 1 ELSE 0),
+   rwdrift |-> c.rwdrift + (IF WaitedScan(r, x) /\ r.t - x.t < RescanWaitMs THEN 1 ELSE 0)]
 
 \* the previous sample of the stream; forgotten where the state object itself is replaced (a new manager) or gone
 NextSample(r, p) ==
@@ -91,7 +108,7 @@ NextSample(r, p) ==
   ELSE p
 
 TInit == l = 1 /\ fails = <<>> /\ m = MInit("tws") /\ pred = <<>> /\ drift = 0 /\ ncase = 0 /\ cnt = Cnt0
-         /\ prevS = NoSample /\ seen = {} /\ done = FALSE
+         /\ prevS = NoSample /\ seen = {} /\ rs = Rs0 /\ done = FALSE
 Step == /\ l <= NRec
         /\ LET r == Trace[l]
                m1 == Apply(m, r)
@@ -100,7 +117,8 @@ Step == /\ l <= NRec
               /\ pred' = IF r.ev = "Begin" THEN (IF Has(r.in, "predicted") THEN r.in.predicted ELSE <<>>) ELSE pred
               /\ drift' = drift + Drift(r, pred)
               /\ ncase' = ncase + (IF r.ev = "Begin" THEN 1 ELSE 0)
-              /\ cnt' = Bump(cnt, r, m, m1, prevS)
+              /\ cnt' = Bump(cnt, r, m, m1, prevS, rs)
+              /\ rs' = NextRs(r, rs)
               /\ prevS' = NextSample(r, prevS)
               /\ seen' = IF r.ev = "Stream" /\ r.listed THEN seen \cup {r.status} ELSE seen
         /\ l' = l + 1 /\ UNCHANGED done
@@ -110,8 +128,10 @@ Finish == /\ l = NRec + 1 /\ ~done
                                         stat_pausedobs |-> cnt.pausedobs, stat_cycles |-> cnt.cycles,
                                         stat_status_checked |-> cnt.stchk, stat_status_drift |-> cnt.stdrift,
                                         stat_stream |-> cnt.stream, stat_stream_drift |-> cnt.strdrift,
-                                        stat_stream_direct |-> cnt.strdirect, stat_statuses_seen |-> Cardinality(seen)])
-          /\ done' = TRUE /\ UNCHANGED <<l, fails, m, pred, drift, ncase, cnt, prevS, seen>>
+                                        stat_stream_direct |-> cnt.strdirect, stat_statuses_seen |-> Cardinality(seen),
+                                        stat_recycles |-> cnt.recyc, stat_recycle_drift |-> cnt.recdrift,
+                                        stat_rescan_waits |-> cnt.rwaits, stat_rescan_wait_drift |-> cnt.rwdrift])
+          /\ done' = TRUE /\ UNCHANGED <<l, fails, m, pred, drift, ncase, cnt, prevS, seen, rs>>
 TNext == Step \/ Finish
 TSpec == TInit /\ [][TNext]_tvars
 ====
